@@ -10,6 +10,14 @@ open GV.HashToField
 #print axioms C13_hashToField_eq
 #print axioms C13_hashToField_error_iff
 #print axioms C13_L_table
+#print axioms C13_hist_state
+#print axioms C13_hist_state_after_reset
+#print axioms C13_hist_answer
+#print axioms C13_hist_sum
+#print axioms C13_hist_sum_fresh
+#print axioms C13_hist_concat_only
+#print axioms C13_hist_sum_idempotent
+#print axioms C13_hist_digest_spec
 #print axioms C13_svdw_x_square
 #print axioms C13_svdw_on_curve
 #print axioms C13_svdw_sign
